@@ -303,7 +303,8 @@ theorem trieWF_packet {b : B} (h : TrieWF b) (c : Nat) (p : Packet) : TrieWF (pa
 
 theorem trieWF_step {b : B} (h : TrieWF b) (e : Ev) : TrieWF (step b e).1 := by
   cases e with
-  | first c f a => exact trieWF_first h c f a
+  | first c f a =>
+    exact Mqtt.Proofs.Connect.connect_state TrieWF (fun b c h => trieWF_stop h c) (fun b c f a h => trieWF_first h c f a) b c f a h
   | packet c p => exact trieWF_packet h c p
   | close c => exact trieWF_stop h c
   | srvPub p =>
